@@ -32,7 +32,7 @@ INFO = {
     "(the solver enumerates k at the file boundary: exhaustive over all prefixes of that file, no class merging).  "
     "(R) round trip, no symbolic variable (a plain differential, labelled as such): save/load/save over the grammar "
     "families - actions, gotos, finish flags, conflicts, dynamic marks equal; second save byte-identical.",
-    "bounds": {"quick": {"H": "1 grammar file with an import, 2 builds", "M": "3 files", "K": "every prefix of the .pgc of one small grammar (split over 8 workers)", "R": "GF-shapes + 100 GF-tiny(3)"},
+    "bounds": {"quick": {"H": "1 grammar file with an import, 2 builds", "M": "4 files (root -> imp -> leaf chain + .pgc), symbolic mtimes", "K": "every prefix of the .pgc of one small grammar (split over 8 workers)", "R": "GF-shapes + 100 GF-tiny(3)"},
                "thorough": {"H": "3 grammar files", "K": "every prefix for 3 grammar files incl. one with an import", "R": "all GF-tiny(3)"}},
     "outside": "histories longer than two builds + one edit; pglr compile (CLI); concurrent writers; equal mtimes; "
     "the .pgec error-hints cache",
@@ -51,17 +51,18 @@ MANIFEST = {
 ROOT_G = """import 'imp.pg' as i;
 S: S '+' i.T | i.T;
 """
-IMP_G = """T: T '*' F | F;
+IMP_G = """import 'leaf.pg' as l;
+T: T l.OP F | F;
 F: '(' i_never | 'n';
 i_never: 'q';
 """
-IMP_G2 = """T: T '/' F | F;
-F: '(' i_never | 'n';
-i_never: 'q';
-"""
+LEAF_G = "OP: '*';\n"
+LEAF_G2 = "OP: '/';\n"
+IMP_G2 = LEAF_G2  # the edit happens in the deepest file of the chain root -> imp -> leaf
 SMALL = "E: E '+' 'n' | 'n';"
+OVERLAP = "S: Item S | Item;\nItem: 'for' | ID;\nterminals\nID: /\\w+/;\n"
 FLAT = "E: E '+' E | E '*' E | 'n' | A; A: 'a' | EMPTY;"
-PROBES = ["n", "n + n", "n * n + n", "n +", "n n", "", "n / n", "a", "n + + n", "n * n * n"]
+PROBES = ["n", "n + n", "n * n + n", "n +", "n n", "", "n / n", "a", "n + + n", "n * n * n", "for", "forest", "for x for", "fo"]
 
 _dirs = []
 
@@ -87,11 +88,12 @@ def cases(tier, seed):
     out.append({"name": "H:imports", "params": {"kind": "H", "g": "imports"}, "budget_s": 3000})
     out.append({"name": "H:flat-ambiguous", "params": {"kind": "H", "g": "flat"}, "budget_s": 3000})
     out.append({"name": "M:imports", "params": {"kind": "M"}, "budget_s": 1500})
-    kgs = ["small"] if tier == "quick" else ["small", "flat", "imports"]
-    for kg in kgs:
-        parts = 8 if kg == "small" else 32
+    kgs = [("small", False), ("overlap", True)] if tier == "quick" else [("small", False), ("overlap", True), ("overlap", False), ("flat", False), ("flat", True), ("imports", False)]
+    for kg, glr in kgs:
+        parts = 8 if kg in ("small", "overlap") else 32
         for part in range(parts):
-            out.append({"name": "K:%s:part%02d/%d" % (kg, part, parts), "params": {"kind": "K", "g": kg, "part": part, "parts": parts}, "budget_s": 3000})
+            out.append({"name": "K:%s%s:part%02d/%d" % (kg, ":glr" if glr else "", part, parts),
+                        "params": {"kind": "K", "g": kg, "glr": glr, "part": part, "parts": parts}, "budget_s": 3000})
     gs = corpus.shapes() + (corpus.stratified(corpus.gf_tiny(3), 100, seed) if tier == "quick" else corpus.gf_tiny(3))
     for n in range(0, len(gs), 40):
         out.append({"name": "R:batch%02d" % (n // 40), "params": {"kind": "R", "grammars": [g.short() for g in gs[n : n + 40]]}})
@@ -99,15 +101,18 @@ def cases(tier, seed):
     return out
 
 
-def write_files(d, which, imp=IMP_G):
+def write_files(d, which, imp=None):
+    imp = LEAF_G if imp is None else imp
     if which == "imports":
         with open(os.path.join(d, "root.pg"), "w") as f:
             f.write(ROOT_G)
         with open(os.path.join(d, "imp.pg"), "w") as f:
-            f.write(imp)
+            f.write(IMP_G)
+        with open(os.path.join(d, "leaf.pg"), "w") as f:
+            f.write(imp if imp in (LEAF_G, LEAF_G2) else LEAF_G)
     else:
         with open(os.path.join(d, "root.pg"), "w") as f:
-            f.write(FLAT if which == "flat" else SMALL)
+            f.write({"flat": FLAT, "small": SMALL, "overlap": OVERLAP}[which])
     return os.path.join(d, "root.pg")
 
 
@@ -209,24 +214,24 @@ def build_M(params, symbolic):
     Parser(g_old)  # writes root.pgc for the OLD imported grammar
     with open(os.path.join(d, "root.pgc")) as f:
         old_cache = f.read()
-    # edit the imported file
-    with open(os.path.join(d, "imp.pg"), "w") as f:
-        f.write(IMP_G2)
+    # edit the deepest imported file
+    with open(os.path.join(d, "leaf.pg"), "w") as f:
+        f.write(LEAF_G2)
     d2 = scratch()
     write_files(d2, "imports", IMP_G2)
     fresh = Parser(Grammar.from_file(os.path.join(d2, "root.pg")))
     fresh_fp = fingerprint(fresh)
     real_os = T.os
 
-    def h(m_root: int, m_imp: int, m_pgc: int):
+    def h(m_root: int, m_imp: int, m_leaf: int, m_pgc: int):
         with open(os.path.join(d, "root.pgc"), "w") as f:
             f.write(old_cache)
-        mt = {"root.pg": m_root, "imp.pg": m_imp, "root.pgc": m_pgc}
+        mt = {"root.pg": m_root, "imp.pg": m_imp, "leaf.pg": m_leaf, "root.pgc": m_pgc}
         with native():
             g = Grammar.from_file(root)
-        stale = (m_pgc < m_root) or (m_pgc < m_imp)
+        stale = (m_pgc < m_root) or (m_pgc < m_imp) or (m_pgc < m_leaf)
         if twin:
-            stale = m_pgc <= m_root or m_pgc <= m_imp
+            stale = m_pgc <= m_root or m_pgc <= m_imp or m_pgc <= m_leaf
         T.os = _OsShim(mt)
         try:
             p = Parser(g)
@@ -263,14 +268,15 @@ def build_M(params, symbolic):
 def build_K(params, symbolic):
     which = params["g"]
     stats = {}
+    Cls = GLRParser if params.get("glr") else Parser
     d = scratch()
     root = write_files(d, which)
-    Parser(Grammar.from_file(root))
+    Cls(Grammar.from_file(root))
     with open(os.path.join(d, "root.pgc"), "rb") as f:
         full = f.read()
     d2 = scratch()
     root2 = write_files(d2, which)
-    fresh = Parser(Grammar.from_file(root2))
+    fresh = Cls(Grammar.from_file(root2))
     fresh_fp = fingerprint(fresh)
     fresh_out = [outcome(fresh, w) for w in PROBES]
     L = len(full)
@@ -290,7 +296,7 @@ def build_K(params, symbolic):
             with open(os.path.join(d, "root.pgc"), "wb") as f:
                 f.write(full[:kk])
             try:
-                p = Parser(Grammar.from_file(root))
+                p = Cls(Grammar.from_file(root))
             except Exception as e:  # noqa
                 return "building a parser over a cache truncated to %d of %d bytes raised %s: %s" % (kk, L, type(e).__name__, e)
             if fingerprint(p) != fresh_fp:
